@@ -4,7 +4,7 @@ sys.path.insert(0, os.path.dirname(os.path.dirname(os.path.abspath(__file__))))
 import ast
 import z3
 from pyvc import xreal as xr
-from pyvc.numexec import Num, Bool, Unsupported
+from pyvc.numexec import Num, Bool, Unsupported, ANALYSIS
 from pyvc.heap import (HeapExec, HPath, LoopSpec, Ref, NONE, XR, Act, cls_of, SeqRef, SeqAct, x2xr, xr2x, RefV, SeqV, ActV, sort_of, str_distinct)
 from pyvc.solve import Obl, static, undecided
 from pyvc.runner import main
@@ -214,7 +214,7 @@ def build(run):
     for fq, f, rp in plan:
         try:
             f(run)
-        except Unsupported as ex_:
+        except ANALYSIS as ex_:
             run.add(undecided(f"{fq}/subset", f"outside the verified subset: {ex_}", fn=fq, meta={"replay": rp} if rp else None))
             continue
         except NotFound as ex_:
@@ -227,7 +227,7 @@ def build(run):
     for f in ():
         try:
             f(run)
-        except Unsupported as ex_:
+        except ANALYSIS as ex_:
             run.add(undecided(f"{getattr(f, '__name__', 'fn')}{len(run.obls)}/subset", f"outside the verified subset: {ex_}"))
         except NotFound as ex_:
             run.add(static(f"{getattr(f, '__name__', 'fn')}{len(run.obls)}/exists", False, f"function under contract not found: {ex_}"))
